@@ -37,6 +37,10 @@ pub struct Layout {
     pub rng_seed: u64,
     pub prefix: Vec<Pre>,
     pub codec: CodecKind,
+    /// gossip() calls made between two probe rounds of the stable phase (other traffic of the same
+    /// instance must not disturb the rotation)
+    #[serde(default)]
+    pub chatter: u8,
 }
 
 struct Sim {
@@ -188,6 +192,9 @@ pub fn exec_layout(l: &Layout, out: &mut CaseOut) -> Result<(), Fail> {
         let Some(t) = s.round(true)? else {
             return Err(Fail::new("C14:probing-stopped", "the instance stopped probing although members are active".to_string()));
         };
+        for _ in 0..l.chatter {
+            s.call(Call::Gossip)?;
+        }
         ensure!(active.contains(&t), "C14:pinged-non-member", "Ping sent to {t} which is not one of the stable active members {:?}", active);
         let after = s.inst.view();
         ensure!(after.active == active, "C14:membership-not-stable", "answered probe round changed the active set: {:?} -> {:?}", active, after.active);
@@ -254,8 +261,9 @@ impl Part for LayoutPart {
             any::<u64>(),
             proptest::collection::vec(pre, 0..24),
             prop_oneof![Just(CodecKind::Fix), Just(CodecKind::Var)],
+            prop_oneof![3 => Just(0u8), 1 => Just(1u8), 1 => 2..4u8],
         )
-            .prop_map(move |(mut insert, rng_seed, prefix, codec)| {
+            .prop_map(move |(mut insert, rng_seed, prefix, codec, chatter)| {
                 // bound the numbers: at most maxn active, 8 down
                 let (mut a, mut d) = (0, 0);
                 insert.retain(|x| {
@@ -270,7 +278,7 @@ impl Part for LayoutPart {
                 if !insert.contains(&true) {
                     insert.push(true);
                 }
-                Layout { insert, rng_seed, prefix, codec }
+                Layout { insert, rng_seed, prefix, codec, chatter }
             })
             .boxed()
     }
@@ -292,7 +300,7 @@ fn small_layouts() -> Vec<Layout> {
                 continue;
             }
             for warm in 0..=3usize {
-                v.push(Layout { insert: insert.clone(), rng_seed: 0, prefix: vec![Pre::Round; warm], codec: CodecKind::Fix });
+                v.push(Layout { insert: insert.clone(), rng_seed: 0, prefix: vec![Pre::Round; warm], codec: CodecKind::Fix, chatter: 0 });
             }
         }
     }
@@ -319,7 +327,7 @@ pub fn run(ctx: &Ctx, report: &mut Report) -> EvidenceMeta {
     ctx.run_part(&LayoutPart, report);
     EvidenceMeta {
         level: "exploration",
-        rule: "one instance; members and Down records inserted in a generated order (storage position also depends on the generated RNG seed); a generated prefix of successful/failed probe rounds, joins, members declared Down and forget-timers so that the cursor starts anywhere (a forget-timer must leave the set of active members untouched; updates about older and newer generations of the instance's own address are among the prefix events: they never become probe targets); then 6n+4 probe rounds with the membership held stable (every Ping is answered by a correct Ack, suspicion timers never fire). Small spaces (n+d<=5 x 256 seeds x 0..3 warm-up rounds) are enumerated completely, larger ones (n<=12 quick / 20 thorough, d<=8) by proptest. Oracle: exactly one Ping per round, to an active member, never a Down record nor the own address; every window of 2n-1 consecutive rounds pings every active member. Non-trivial: at least one Down record and at least one wrap of the cursor while a Down record sits at the first or last storage position; distinct = (n, d, #such wraps, seed class, prefix length)."
+        rule: "one instance; members and Down records inserted in a generated order (storage position also depends on the generated RNG seed); a generated prefix of successful/failed probe rounds, joins, members declared Down and forget-timers so that the cursor starts anywhere (a forget-timer must leave the set of active members untouched; updates about older and newer generations of the instance's own address are among the prefix events: they never become probe targets); then 6n+4 probe rounds with the membership held stable (in two fifths of the generated layouts 1..3 gossip() calls are made between consecutive rounds) (every Ping is answered by a correct Ack, suspicion timers never fire). Small spaces (n+d<=5 x 256 seeds x 0..3 warm-up rounds) are enumerated completely, larger ones (n<=12 quick / 20 thorough, d<=8) by proptest. Oracle: exactly one Ping per round, to an active member, never a Down record nor the own address; every window of 2n-1 consecutive rounds pings every active member. Non-trivial: at least one Down record and at least one wrap of the cursor while a Down record sits at the first or last storage position; distinct = (n, d, #such wraps, seed class, prefix length)."
             .into(),
         assumptions: vec!["membership stability is enforced by the harness (correct Acks, no suspicion time-outs)".into()],
     }
